@@ -2,7 +2,7 @@ package util
 
 // Bounded stand-in for the whole-trie statement of C17 (reachability through a store is outside the
 // contracts): for small tries, EVERY subset of the non-root nodes is removed from the store. Checked
-// for each subset, at a trie version equal to and different from the nodes' creation version:
+// for each subset, at trie versions below, between, equal to and above the nodes' creation versions:
 // (1) HasMissingNodes is true exactly when a node reachable from the root is absent;
 // (2) GetAllMissingNodes returns exactly the absent nodes reachable through present ones;
 // (3) a lookup whose path runs through an absent node fails (never wrong data), other lookups succeed;
@@ -12,7 +12,7 @@ package util
 // (6) for a third of the subsets: repair through MergeState into the store of the same trie object
 //     that detected the missing nodes; that object must then report nothing missing and read everything.
 // property: C17
-// scope: 3 trie contents (6-9 nodes each, leaves/branches/extensions, a value on a branch); all 2^n subsets of non-root nodes; trie versions {creation version, creation version + 6}
+// scope: 3 trie contents (6-9 nodes each, leaves/branches/extensions, a value on a branch); all 2^n subsets of non-root nodes; nodes created at versions 2 and 4; trie versions {1, 3, 4, 7} (below, between, at and above the node versions)
 
 import (
 	"bytes"
@@ -46,8 +46,13 @@ func TestGocvBoundedC17(t *testing.T) {
 	}
 	for ci, keys := range contents {
 		full := NewMemoryNodeDB()
-		src := NewMerklePatriciaTrie(full, 1, nil, statecache.NewEmpty())
+		// the content is written at two versions (the first two keys at 2, the rest at 4), so the nodes
+		// carry versions 2 and 4; detection and repair then run at trie versions below, between, at and above them
+		src := NewMerklePatriciaTrie(full, 2, nil, statecache.NewEmpty())
 		for i, k := range keys {
+			if i == 2 {
+				src.SetVersion(4)
+			}
 			if _, err := src.Insert(Path(k), &SecureSerializableValue{Buffer: []byte{byte('a' + i)}}); err != nil {
 				t.Fatal(err)
 			}
@@ -104,7 +109,7 @@ func TestGocvBoundedC17(t *testing.T) {
 			visit(root, Path(k))
 		}
 		for mask := 0; mask < 1<<len(nonRoot); mask++ {
-			for _, version := range []Sequence{1, 7} {
+			for _, version := range []Sequence{4, 7, 3, 1} {
 				cases++
 				func() {
 					defer func() {
@@ -229,7 +234,7 @@ func TestGocvBoundedC17(t *testing.T) {
 			}
 		}
 	}
-	fmt.Printf("GOCV-BOUNDED cases=%d failures=%d scope=\"contents %v: every subset of non-root nodes removed, trie versions {1, 7} (nodes created at 1): HasMissingNodes, GetAllMissingNodes, lookups, MergeDB repair, donor unchanged\"\n", cases, fails, contents)
+	fmt.Printf("GOCV-BOUNDED cases=%d failures=%d scope=\"contents %v: every subset of non-root nodes removed, trie versions {1, 3, 4, 7} (nodes created at versions 2 and 4): HasMissingNodes, GetAllMissingNodes, lookups, MergeDB repair, donor unchanged\"\n", cases, fails, contents)
 	if fails > 0 {
 		t.Fail()
 	}
